@@ -66,7 +66,9 @@ func ParseXfcc(headerValue string) []XfccElement {
 			}
 			switch key {
 			case "cert", "uri", "by":
-				if decoded, err := url.QueryUnescape(value); err == nil {
+				// Percent-decoding only: a literal '+' is a plus sign, not
+				// the space form decoding would make of it.
+				if decoded, err := url.PathUnescape(value); err == nil {
 					value = decoded
 				}
 			}
